@@ -24,7 +24,7 @@ REQUIRED_CLAUSES = ["colsum-zero", "assigned-rate-kept", "populations==expm", "p
 REQUIRED_CONTRACTS = ["RateMatrix.invariant"]
 EPS = numpy.finfo(float).eps
 
-GEN_CLASSES = ["dense", "chain", "equal-chain", "absorbing", "symmetric", "cycle", "two-blocks"]
+GEN_CLASSES = ["dense", "chain", "equal-chain", "absorbing", "symmetric", "cycle", "two-blocks", "nearly-symmetric", "symmetric-plus-slow"]
 
 
 def gen_K(rng, cls, n):
@@ -53,8 +53,20 @@ def gen_K(rng, cls, n):
         h = max(1, n // 2)
         K[:h, :h] = rng.uniform(0.0, 1.0, size=(h, h))
         K[h:, h:] = rng.uniform(0.0, 1.0, size=(n - h, n - h))
+    elif cls in ("nearly-symmetric", "symmetric-plus-slow"):
+        A = rng.uniform(0.1, 1.0, size=(n, n))
+        K = (A + A.T) / 2
     numpy.fill_diagonal(K, 0.0)
     K = numpy.vectorize(r3)(K) if K.size else K
+    if cls == "nearly-symmetric":
+        # forward and backward rates that differ in the sixth digit (a detailed-balance factor close to one)
+        K = K * (1.0 + numpy.triu(numpy.ones((n, n)), 1) * float(rng.choice([3e-6, 1e-6, -5e-6, 8e-6])))
+    elif cls == "symmetric-plus-slow":
+        # fast symmetric exchange plus slow one-directional channels (lifetimes of hundreds of nanoseconds next to femtoseconds)
+        for _ in range(max(1, n // 2)):
+            a_, b_ = int(rng.integers(n)), int(rng.integers(n))
+            if a_ != b_:
+                K[a_, b_] += float(rng.choice([5e-9, 2e-9, 8e-9]))
     for j in range(n):
         K[j, j] = -numpy.sum(K[:, j])
     return K
